@@ -67,6 +67,7 @@ func init() {
 		Rules:       []string{"E1"},
 		Run: func(c *Ctx) {
 			RunE1(c, "C08", append(append([]Ob{}, obs...), sharedObs["C08"]...))
+			RunIssuerCoverage(c, "E7.routes.issuer-interceptor", []string{"KeysEndpoint"}) // handlers verify tokens / assertions against the issuer the interceptor puts into the context
 			RunFieldWriters(c, "E6.active-writers", "oidc", "IntrospectionResponse", "Active", []string{"op.Introspect", "op.(*LegacyServer).Introspect"}, "Active=true must stay behind the introspection obligations")
 		},
 	})
